@@ -28,7 +28,7 @@ RULE = (
     "uniform scale / similarity / axis-aligned non-uniform scale / axis mirror / scale or mirror perpendicular to the "
     "first edge / general affine (shear), re-spelled with absolute or relative commands per command (or with s1's own "
     "letters for translations), optionally rounded to a grid finer than tolerance/4. sub 'nearmiss': near-miss (one "
-    "coordinate of T(s1) after the first moveto moved by 1.5-5 x tolerance), unrelated (same letters, fresh numbers), "
+    "coordinate of T(s1) after the first moveto moved by 1.05-5 x tolerance), unrelated (same letters, fresh numbers), "
     "letter-swap (one command letter replaced by another of the same arity, numbers kept), prefix (one shape is the "
     "other plus extra commands), jitter (every written number moved by < tolerance, or one by 1.5-5 x). sub 'arcs': "
     "image and near-miss classes for shapes containing elliptical arcs (well-conditioned: lambda <= 0.7 or 1.5..25, radii "
